@@ -230,19 +230,19 @@ FRAMINGS = ["none", "proto0", "proto2", "proto3", "proto4", "proto5", "proto4fra
 
 
 def _sbu(s):
-    b = s.encode("utf-8")
+    b = s.encode("utf-8", "surrogatepass")
     return b"\x8c" + bytes([len(b)]) + b
 
 
 def push_global(resolve, module, name):
     if resolve == "GLOBAL":
-        return b"c" + module.encode() + b"\n" + name.encode() + b"\n"
+        return b"c" + module.encode("utf-8", "surrogatepass") + b"\n" + name.encode("utf-8", "surrogatepass") + b"\n"
     if resolve == "STACK_GLOBAL":
         return _sbu(module) + _sbu(name) + b"\x93"
     if resolve == "GLOBAL-memo-collide":
         # a benign global is stored at explicit index 1 of an empty memo; MEMOIZE of the real one then
         # writes memo[len(memo)] = memo[1] and overwrites it (pickle VM semantics); BINGET 1 fetches it
-        return (b"ccollections\nOrderedDict\nq\x010" + b"c" + module.encode() + b"\n" + name.encode() + b"\n" +
+        return (b"ccollections\nOrderedDict\nq\x010" + b"c" + module.encode("utf-8", "surrogatepass") + b"\n" + name.encode("utf-8", "surrogatepass") + b"\n" +
                 b"\x940h\x01")
     if resolve == "STACK_GLOBAL-memo-collide":
         return (_sbu("collections") + b"q\x010" + _sbu(module) + b"\x940h\x01" + _sbu(name) + b"\x93")
@@ -284,7 +284,7 @@ def make_call(resolve, callop, module, name, args):
     if callop == "INST":
         if resolve != "INST":
             return None
-        return b"(" + ab + b"i" + module.encode() + b"\n" + name.encode() + b"\n"
+        return b"(" + ab + b"i" + module.encode("utf-8", "surrogatepass") + b"\n" + name.encode("utf-8", "surrogatepass") + b"\n"
     if resolve == "INST":
         return None
     if resolve not in ("GLOBAL", "STACK_GLOBAL") and resolve.split("-")[0] not in ("GLOBAL", "STACK_GLOBAL"):
